@@ -144,6 +144,25 @@ package stanza
 //@     invariant[C13,C14] forall k int :: 0 <= k && k <= rangeindex && ownType(start.Attr[k], start.Name) && (forall j int :: k < j && j <= rangeindex ==> !ownType(start.Attr[j], start.Name)) ==> string(v.Type) == start.Attr[k].Value
 //@     invariant[C13,C14] (forall k int :: 0 <= k && k <= rangeindex ==> !ownType(start.Attr[k], start.Name)) ==> string(v.Type) == ""
 
+//@ spec ownID(a xml.Attr, n xml.Name) bool = ownAttr(a, n) && a.Name.Local == "id"
+// NewIQ reads type and id only from attributes in no namespace or in the
+// element's own namespace (the last such attribute wins); a prefixed attribute
+// of a foreign namespace never overrides them.
+//@ func NewIQ
+//@   ensures[C07,C13] result1 == nil ==> forall k int :: 0 <= k && k < len(start.Attr) && ownType(start.Attr[k], start.Name) && (forall j int :: k < j && j < len(start.Attr) ==> !ownType(start.Attr[j], start.Name)) ==> string(result0.Type) == start.Attr[k].Value
+//@   ensures[C07,C13] result1 == nil && (forall k int :: 0 <= k && k < len(start.Attr) ==> !ownType(start.Attr[k], start.Name)) ==> string(result0.Type) == ""
+//@   ensures[C07,C13] result0.XMLName == start.Name
+//@   ensures[C07,C13] result1 == nil ==> forall k int :: 0 <= k && k < len(start.Attr) && ownID(start.Attr[k], start.Name) && (forall j int :: k < j && j < len(start.Attr) ==> !ownID(start.Attr[j], start.Name)) ==> result0.ID == start.Attr[k].Value
+//@   ensures[C07,C13] result1 == nil && (forall k int :: 0 <= k && k < len(start.Attr) ==> !ownID(start.Attr[k], start.Name)) ==> result0.ID == ""
+//@   callsite mellium.im/xmpp/jid.Parse#*
+//@     preserves start.Attr
+//@   loop 1
+//@     invariant[C07,C13] rangeindex < len(start.Attr) && v.XMLName == start.Name
+//@     invariant[C07,C13] forall k int :: 0 <= k && k <= rangeindex && ownType(start.Attr[k], start.Name) && (forall j int :: k < j && j <= rangeindex ==> !ownType(start.Attr[j], start.Name)) ==> string(v.Type) == start.Attr[k].Value
+//@     invariant[C07,C13] (forall k int :: 0 <= k && k <= rangeindex ==> !ownType(start.Attr[k], start.Name)) ==> string(v.Type) == ""
+//@     invariant[C07,C13] forall k int :: 0 <= k && k <= rangeindex && ownID(start.Attr[k], start.Name) && (forall j int :: k < j && j <= rangeindex ==> !ownID(start.Attr[j], start.Name)) ==> v.ID == start.Attr[k].Value
+//@     invariant[C07,C13] (forall k int :: 0 <= k && k <= rangeindex ==> !ownID(start.Attr[k], start.Name)) ==> v.ID == ""
+
 // The decoder side of the stanza types (the encoders are the hand-written
 // StartElement/Wrap/TokenReader functions specified above): the attributes are
 // read from the names those encoders write.
